@@ -80,6 +80,9 @@ class GetDescriptorHandlerDistributed(Elaboratable):
         # Collection that will store each of our descriptor-generation submodules.
         descriptor_generators = {}
 
+        # The length of each descriptor, where known (runtime generators report their own `data_length`).
+        descriptor_lengths = {}
+
         #
         # Figure out the maximum length we're willing to send.
         #
@@ -104,8 +107,10 @@ class GetDescriptorHandlerDistributed(Elaboratable):
             # Create the generator...
             if isinstance(raw_descriptor, bytes):
                 generator = USBDescriptorStreamGenerator(raw_descriptor)
+                descriptor_lengths[(type_number, index)] = len(raw_descriptor)
             else:
                 generator = raw_descriptor()
+                descriptor_lengths[(type_number, index)] = getattr(generator, 'data_length', None)
             descriptor_generators[(type_number, index)] = generator
 
             m.d.comb += [
@@ -122,17 +127,41 @@ class GetDescriptorHandlerDistributed(Elaboratable):
         # Connect up each of our generators.
         #
 
+        # Strobe that requests a zero-length packet; used when a request starts at (or past) the end of
+        # a descriptor -- i.e. when the descriptor's length is a multiple of our max packet size, and
+        # the host needs a ZLP to know that the previous packet was the last one.
+        send_zlp = Signal()
+        m.d.usb += send_zlp.eq(0)
+        with m.If(send_zlp):
+            m.d.comb += [
+                self.tx.valid  .eq(1),
+                self.tx.last   .eq(1),
+            ]
+
         with m.Switch(self.value):
 
             # Generate a conditional interconnect for each of our items.
             for (type_number, index), generator in descriptor_generators.items():
 
+                descriptor_length = descriptor_lengths[(type_number, index)]
+
                 # If the value matches the given type number...
                 with m.Case(type_number << 8 | index):
 
-                    # ... connect the relevant generator to our output.
-                    m.d.comb += generator.stream  .attach(self.tx)
-                    m.d.usb += generator.start    .eq(self.start),
+                    # If we're asked to start past the end of the descriptor, all of its data has been
+                    # sent already; terminate the data stage with a ZLP instead of re-sending data.
+                    if descriptor_length is not None:
+                        past_end = (self.start_position >= descriptor_length)
+                    else:
+                        past_end = 0
+
+                    with m.If(past_end):
+                        m.d.usb += send_zlp.eq(self.start)
+
+                    with m.Else():
+                        # ... connect the relevant generator to our output.
+                        m.d.comb += generator.stream  .attach(self.tx)
+                        m.d.usb += generator.start    .eq(self.start),
 
             # If none of our descriptors match, stall any request that comes in.
             with m.Default():
